@@ -420,3 +420,388 @@ def prop_c03bec2(k, bs, cs, es, ephs):
     if out[o:] != want:
         return f"FAIL body after the {o}-byte header differs from the documented layout at offset {o}"
     return "ok"
+
+
+# ------------------------------------------------------------------ C02 / C06 / C07 / C09 direct evaluation
+import itertools
+import os
+import subprocess
+import tempfile
+import base64
+
+
+def _header_tlvs(binary):
+    """[(tag, value)] of the BEC2 header and the offset of the body"""
+    assert binary[:5] == BEC2_FILE_SIG
+    o, out = 5, []
+    while True:
+        t, ln = binary[o], binary[o + 1]
+        o += 2
+        if t == 0 and ln == 0:
+            return out, o
+        out.append((t, binary[o:o + ln]))
+        o += ln
+
+
+def _matching_decryptor(block, writer_encs):
+    """the decryptor that opens `block` (writer side knows the secrets)"""
+    if isinstance(block, InitCustKeyAuthBlock):
+        return next(e for e in writer_encs if isinstance(e, SoftwareCustKeyEncryptor))
+    if isinstance(block, InitEccAuthBlock):
+        return next(e for e in writer_encs if isinstance(e, EccDecryptor) and e.key_selector == block.key_selector)
+    return ConfigSecurityCodeEncryptor(block.config_security_code)
+
+
+@op("prop.c02")
+def prop_c02(k, bs, cs, es, ephs):
+    key, comps = unhx(k), b3.parse_comps(cs)
+    wencs = parse_encs(es)
+    try:
+        with Oracle(parse_nats(ephs)):
+            f0 = Bec2File(Bf3File({}, b3.parse_comps(cs)), parse_blocks(bs), key)
+            s = io.StringIO()
+            f0.write_file(s, wencs)
+            text = s.getvalue()
+    except OverflowError:
+        return "ok writer-rejects OverflowError"      # an entry beyond the 255-byte directory-entry limit
+    except Exception as e:
+        return f"FAIL writer raises {type(e).__name__}: {e}"
+    blocks = list(f0.auth_blocks.values())
+    decs = [_matching_decryptor(b, wencs) for b in blocks]
+    binary = unhx_text(text)
+    tlvs, _ = _header_tlvs(binary)
+    want_comps = _expected_comps(comps)
+    n = 0
+    for r in range(1, len(decs) + 1):
+        for idx in itertools.combinations(range(len(decs)), r):
+            sub = [decs[i] for i in idx]
+            for order in ([sub, list(reversed(sub))] if len(sub) > 1 else [sub]):
+                n += 1
+                try:
+                    f = Bec2File.read_file(io.StringIO(text), order, True)
+                except Exception as e:
+                    return f"FAIL decryptors {idx}: reader raises {type(e).__name__}: {e}"
+                if f.session_key != key:
+                    return f"FAIL decryptors {idx}: session key {f.session_key.hex()} != {key.hex()}"
+                got = list(f.auth_blocks.values())
+                if len(got) != len(blocks):
+                    return f"FAIL decryptors {idx}: {len(got)} auth blocks instead of {len(blocks)}"
+                for i, (g, b) in enumerate(zip(got, blocks)):
+                    if i in idx:
+                        if show_block(g) != show_block(b):
+                            return f"FAIL decryptors {idx}: block {i} read as {show_block(g)} instead of {show_block(b)}"
+                    else:
+                        if not isinstance(g, UnknownAuthBlock) or g.tag != tlvs[i][0] or g.binary_value != tlvs[i][1]:
+                            return f"FAIL decryptors {idx}: unopened block {i} not preserved as opaque TLV"
+                d = b3.same_file(f.bf3file, {}, want_comps)
+                if d:
+                    return f"FAIL decryptors {idx}: {d}"
+    return f"ok {n}"
+
+
+def unhx_text(text):
+    lines = text.split("\n")
+    i = lines.index("")
+    return bytes.fromhex("".join(lines[i + 1:]))
+
+
+@op("prop.c06")
+def prop_c06(k, cs, code, ckey):
+    """encrypted components: stored as AES-128-CBC/zero IV of the zero-padded content under the session key,
+    read back to the original up to the declared length; secrets never in clear"""
+    key, comps = unhx(k), b3.parse_comps(cs)
+    code, ckey = unhx(code), unhx(ckey)
+    for framing in ("bf3", "bec2"):
+        try:
+            if framing == "bf3":
+                binary = b3.BF3_FILE_SIG + Bf3File({}, b3.parse_comps(cs)).to_binary(5, key)
+                body_off = 5
+            else:
+                f0 = Bec2File(Bf3File({}, b3.parse_comps(cs)), [InitCustKeyAuthBlock(), UpdateAuthBlock(code, 7)], key)
+                binary = f0.to_binary([SoftwareCustKeyEncryptor(bytes(range(16)), ckey, 0)])
+                body_off = _header_tlvs(binary)[1]
+        except Exception as e:
+            return f"FAIL {framing}: writer raises {type(e).__name__}: {e}"
+        try:
+            ents = layout.parse(key, body_off, binary[body_off:], True)
+        except layout.Bad as e:
+            return f"FAIL {framing}: independent parser rejects the written file: {e}"
+        for i, (c, (desc, payload, declared)) in enumerate(zip(comps, ents)):
+            if c.encrypt_by_session_key:
+                want = refaes.cbc_encrypt(key, bytes(16), refaes.zero_pad(c.blob))
+                if payload != want:
+                    return f"FAIL {framing}: component {i} is not stored as AES-128-CBC(zero IV) of the zero-padded content"
+        # secrets in clear?
+        needles = [("session key", key)] if key != bytes(16) else []
+        if framing == "bec2":
+            needles += [("security code", code), ("customer key", ckey)]
+        for c in comps:
+            if c.encrypt_by_session_key:
+                for o in range(0, len(c.blob) - 15, 16):
+                    blk = c.blob[o:o + 16]
+                    if len(set(blk)) > 4:
+                        needles.append(("configuration plaintext", blk))
+        for what, nd in needles:
+            if len(nd) >= 8 and len(set(nd)) > 4 and nd in binary:
+                return f"FAIL {framing}: {what} appears in clear in the written file"
+        # read back
+        try:
+            if framing == "bf3":
+                got = Bf3File.read_file(io.StringIO(b3.to_text(binary)), True, key).components
+            else:
+                got = Bec2File.read_file(io.StringIO(b3.to_text(binary)),
+                                         [SoftwareCustKeyEncryptor(bytes(range(16)), ckey, 0)], True).bf3file.components
+        except Exception as e:
+            return f"FAIL {framing}: reader raises {type(e).__name__}: {e}"
+        for i, (c, g) in enumerate(zip(comps, got)):
+            if c.encrypt_by_session_key and c.description.get(0xC2) == b"\x02":
+                if g.blob[:c.actual_len] != c.blob[:c.actual_len] or g.actual_len != c.actual_len:
+                    return f"FAIL {framing}: component {i} does not decrypt to the original up to its declared length"
+                if not g.encrypt_by_session_key:
+                    return f"FAIL {framing}: component {i} read back without the encrypted flag"
+    return "ok"
+
+
+@op("prop.c06nocipher")
+def prop_c06nocipher(k, cs, mode):
+    """cipher not registered / raising at the n-th call: writing must fail, never emit plaintext"""
+    key = unhx(k)
+    saved = getattr(crypto, "__AES128")
+    calls = {"n": 0}
+    fail_at = int(mode) if mode != "missing" else None
+
+    class Flaky(saved):
+        def encrypt(self, data):
+            calls["n"] += 1
+            if calls["n"] == fail_at:
+                raise RuntimeError("cipher failure injected")
+            return super().encrypt(data)
+
+    try:
+        crypto.register_AES128(crypto.AES128 if mode == "missing" else Flaky)
+        try:
+            out = Bf3File({}, b3.parse_comps(cs)).to_binary(5, key)
+        except NotImplementedError:
+            return "ok NotImplementedError" if mode == "missing" else "FAIL NotImplementedError from a registered cipher"
+        except RuntimeError as e:
+            return "ok propagated" if "injected" in str(e) else f"FAIL {e}"
+        except Exception as e:
+            return f"ok raised {type(e).__name__}"
+        if mode == "missing" and b3.parse_comps(cs):
+            return "FAIL file written although no cipher is registered"
+        if fail_at is not None and calls["n"] >= fail_at:
+            return "FAIL cipher failure swallowed: file written"
+        return "ok not-reached"
+    finally:
+        crypto.register_AES128(saved)
+
+
+@op("prop.c07")
+def prop_c07(seq, bs, es, ephs, rand):
+    """histories of constructions and writes: one fresh 16-byte key per file, never redrawn on write;
+    one fresh ephemeral key per ECC block per write; all blocks wrap the body key"""
+    nfiles, nwrites = (int(x) for x in seq.split(","))
+    rnd = unhx(rand)
+    wencs = parse_encs(es)
+    with Oracle(parse_nats(ephs), rnd) as o:
+        files = []
+        for i in range(nfiles):
+            before = len(o.log)
+            f = Bec2File(Bf3File(), parse_blocks(bs))
+            if o.log[before:] != ["rand16"]:
+                return f"FAIL construction {i} drew {o.log[before:]} instead of exactly one 16-byte random key"
+            if f.session_key != rnd[16 * i:16 * i + 16]:
+                return f"FAIL construction {i}: key is not the next 16 fresh random bytes"
+            files.append(f)
+        if len({f.session_key for f in files}) != len(files):
+            return "FAIL two files share a session key"
+        necc = sum(1 for b in files[0].auth_blocks.values() if isinstance(b, InitEccAuthBlock))
+        seen_points = set()
+        for i, f in enumerate(files):
+            for w in range(nwrites):
+                before = len(o.log)
+                key_before = f.session_key
+                binary = f.to_binary(wencs)
+                drew = o.log[before:]
+                if drew != ["keygen"] * necc:
+                    return f"FAIL write {w} of file {i} drew {drew}; expected {necc} key generation(s) and no random bytes"
+                if f.session_key != key_before:
+                    return "FAIL the session key changed on writing"
+                tlvs, off = _header_tlvs(binary)
+                for (t, v), blk in zip(tlvs, f.auth_blocks.values()):
+                    if isinstance(blk, InitEccAuthBlock):
+                        if v[2:66] in seen_points:
+                            return "FAIL an ephemeral public point was reused"
+                        seen_points.add(v[2:66])
+                    dec = _matching_decryptor(blk, wencs)
+                    try:
+                        _, sk = type(blk).unpack(v, [dec])
+                    except Exception as e:
+                        return f"FAIL block tag {t} of the writer's own header does not unpack: {type(e).__name__}"
+                    if sk != f.session_key:
+                        return f"FAIL block tag {t} wraps {sk.hex()} but the body key is {f.session_key.hex()}"
+                try:
+                    layout.parse(f.session_key, off, binary[off:], True)
+                except layout.Bad as e:
+                    return f"FAIL body is not authenticated by the session key: {e}"
+    return "ok"
+
+
+@op("prop.c07splice")
+def prop_c07splice(k1, k2, bs, es, ephs):
+    """blocks wrapping two different keys spliced into one header must be rejected"""
+    wencs = parse_encs(es)
+    blocks = parse_blocks(bs)
+    if len(blocks) < 2:
+        return "ok n/a"
+    with Oracle(parse_nats(ephs)):
+        a = Bec2File(Bf3File(), parse_blocks(bs), unhx(k1)).to_binary(wencs)
+        b = Bec2File(Bf3File(), parse_blocks(bs), unhx(k2)).to_binary(wencs)
+    ta, offa = _header_tlvs(a)
+    tb, _ = _header_tlvs(b)
+    spl = [ta[0]] + tb[1:]
+    hdr = BEC2_FILE_SIG + b"".join(bytes([t, len(v)]) + v for t, v in spl) + b"\x00\x00"
+    body = Bf3File().to_binary(len(hdr), unhx(k1))
+    decs = [_matching_decryptor(x, wencs) for x in Bec2File(Bf3File(), parse_blocks(bs), unhx(k1)).auth_blocks.values()]
+    try:
+        f = Bec2File.read_file(io.StringIO(b3.to_text(hdr + body)), decs, True)
+    except bec2.Bec2FileFormatError:
+        return "ok rejected"
+    except Exception as e:
+        return f"ok rejected-with {type(e).__name__}"
+    return f"FAIL header whose blocks wrap different keys accepted with key {f.session_key.hex()}"
+
+
+@op("prop.c07unknown")
+def prop_c07unknown(k, bs, es, ephs, ephs2, keep):
+    """blocks without a matching decryptor are kept byte for byte when the file is written again"""
+    key = unhx(k)
+    wencs = parse_encs(es)
+    with Oracle(parse_nats(ephs)):
+        f0 = Bec2File(Bf3File(), parse_blocks(bs), key)
+        a = f0.to_binary(wencs)
+    blocks = list(f0.auth_blocks.values())
+    keep = int(keep) % len(blocks)
+    dec = _matching_decryptor(blocks[keep], wencs)
+    f = Bec2File.read_file(io.StringIO(b3.to_text(a)), [dec], True)
+    with Oracle(parse_nats(ephs2)):
+        b = f.to_binary([dec])
+    ta, _ = _header_tlvs(a)
+    tb, _ = _header_tlvs(b)
+    if len(ta) != len(tb):
+        return "FAIL number of header blocks changed on re-writing"
+    for i, (x, y) in enumerate(zip(ta, tb)):
+        if i != keep and x != y:
+            return f"FAIL unopened block {i} (tag {x[0]}) changed on re-writing"
+        if i == keep and x[0] != y[0]:
+            return f"FAIL opened block {i} moved"
+    return "ok"
+
+
+def _pem(kind, der):
+    b = base64.encodebytes(der).decode()
+    return f"-----BEGIN {kind}-----\n{b}-----END {kind}-----\n"
+
+
+def _openssl_derive(priv_pem, peer_der):
+    d = tempfile.mkdtemp(prefix="bec2verif_ossl_")
+    try:
+        kp, pp = os.path.join(d, "k.pem"), os.path.join(d, "p.pem")
+        open(kp, "w").write(priv_pem)
+        open(pp, "w").write(_pem("PUBLIC KEY", peer_der))
+        r = subprocess.run(["openssl", "pkeyutl", "-derive", "-inkey", kp, "-peerkey", pp],
+                           stdout=subprocess.PIPE, stderr=subprocess.PIPE, timeout=30)
+        if r.returncode != 0:
+            raise RuntimeError("openssl: " + r.stderr.decode()[:200])
+        return r.stdout
+    finally:
+        for f in os.listdir(d):
+            os.unlink(os.path.join(d, f))
+        os.rmdir(d)
+
+
+def _sec1_der(d):
+    """SEC1 ECPrivateKey for P-256 with named curve, built by hand (independent of the library's DER code)"""
+    priv = d.to_bytes(32, "big")
+    oid = bytes.fromhex("06082A8648CE3D030107")
+    body = b"\x02\x01\x01" + b"\x04\x20" + priv + b"\xa0" + bytes([len(oid)]) + oid
+    return b"\x30" + bytes([len(body)]) + body
+
+
+HEADER27 = bytes.fromhex("3059301306072A8648CE3D020106082A8648CE3D03010703420004")
+
+
+@op("prop.c09")
+def prop_c09(sel, d, eph, k, explicit):
+    """the ECC block is: selector, 04, a valid ephemeral P-256 point, AES-128-CBC(SHA-256(ECDH x)[:16]) of the session
+    key - checked by decrypting it with OpenSSL's ECDH and an independent AES"""
+    sel, d, eph, key = int(sel), int(d), int(eph), unhx(k)
+    priv_pem = _pem("EC PRIVATE KEY", _sec1_der(d))
+    r = subprocess.run(["openssl", "ec", "-pubout", "-outform", "DER"], input=priv_pem.encode(),
+                       stdout=subprocess.PIPE, stderr=subprocess.PIPE, timeout=30)
+    if r.returncode != 0:
+        raise RuntimeError("harness: openssl ec failed " + r.stderr.decode()[:200])
+    pub_der = r.stdout
+    with Oracle([eph]):
+        encs = [EccEncryptor(sel, crypto.create_public_ecc_key_from_der_fmt(pub_der))] if explicit == "1" else []
+        if explicit != "1":
+            return "ok n/a"
+        raw = InitEccAuthBlock(sel).pack(key, encs)
+    if raw[0] != sel or raw[1] != 4 or len(raw) != 2 + 64 + 16:
+        return f"FAIL block is not selector, 04, X, Y, 16 bytes ciphertext (len {len(raw)})"
+    x, y = int.from_bytes(raw[2:34], "big"), int.from_bytes(raw[34:66], "big")
+    p = 0xffffffff00000001000000000000000000000000ffffffffffffffffffffffff
+    bb = 0x5ac635d8aa3a93e7b3ebbd55769886bc651d06b0cc53b0f63bce3c3e27d2604b
+    if not (x < p and y < p and (y * y - (x * x * x - 3 * x + bb)) % p == 0):
+        return "FAIL ephemeral point is not a valid P-256 point"
+    secret = _openssl_derive(priv_pem, HEADER27 + raw[2:66])
+    aes_key = sha256(secret).digest()[:16]
+    got = refaes.cbc_decrypt(aes_key, bytes(16), raw[66:])
+    if got != key:
+        return f"FAIL OpenSSL ECDH + SHA-256 + AES-128-CBC recovers {got.hex()} instead of the session key"
+    # and the library's own decryptor agrees
+    blk, sk = InitEccAuthBlock.unpack(raw, [EccDecryptor(sel, priv_key(d))])
+    if sk != key or blk.key_selector != sel:
+        return "FAIL the library's decryptor does not recover the session key"
+    return "ok"
+
+
+@op("prop.c09default")
+def prop_c09default(sel, eph, k):
+    """without explicit recipient the block is addressed to the published key of its selector"""
+    sel, eph, key = int(sel), int(eph), unhx(k)
+    used = []
+    orig = EccEncryptor.encrypt
+
+    def spy(self, pt):
+        used.append(self.public_key.to_der_fmt())
+        return orig(self, pt)
+
+    EccEncryptor.encrypt = spy
+    try:
+        with Oracle([eph]):
+            try:
+                raw = InitEccAuthBlock(sel).pack(key, [])
+            except KeyError:
+                return "ok KeyError" if sel not in EccEncryptor.DEFAULT_PUBLIC_KEYS else "FAIL KeyError for a published selector"
+    finally:
+        EccEncryptor.encrypt = orig
+    if sel not in EccEncryptor.DEFAULT_PUBLIC_KEYS:
+        return "FAIL a block for a selector without published key was written"
+    if used != [EccEncryptor.DEFAULT_PUBLIC_KEYS[sel]]:
+        return f"FAIL block for selector {sel} is not addressed to the published key of that selector"
+    if raw[0] != sel:
+        return "FAIL selector byte"
+    return "ok"
+
+
+@op("prop.c09reject")
+def prop_c09reject(d, rawpoint):
+    """unwrapping refuses ephemeral points that are not valid curve points"""
+    d, pt = int(d), unhx(rawpoint)
+    blk = b"\x00\x04" + pt + bytes(16)
+    try:
+        InitEccAuthBlock.unpack(blk, [EccDecryptor(0, priv_key(d))])
+    except Exception as e:
+        return "ok " + type(e).__name__
+    return "FAIL invalid ephemeral point accepted"
